@@ -108,7 +108,7 @@ G19_readNotBlockedWhenDeliverable(s, st) ==
 \* once the end of a length- or chunk-delimited frame (or of the head of a bodiless
 \* response) has arrived, nothing further is awaited from the peer
 G19_noWaitBeyondFrame(s, st) ==
-  (st.op # "send" /\ s.framing # "close" /\ s.g19 /\ ~st.errSeen /\ s.faultKind \in {"none", "cut"})
+  (st.op # "send" /\ s.framing # "close" /\ s.g19 /\ ~st.errSeen /\ s.faultKind \in {"none", "cut", "lenient"})
      => st.arrived < s.frameEnd
 
 SendGuards   == {"G04_sendOkOnValidHead", "G03_badLengthRejected", "G02_cutHeadIsError", "G05_sendReturns"}
